@@ -55,7 +55,10 @@ CONSTANTS
     MaxOps,     \* bound on environment operations (client datagrams, replies, down/up)
     MaxQ,       \* bound on queued client datagrams / replies per socket
     Hist,       \* TRUE: full histories toPeer/toClient/done; FALSE: last element only (model checking)
-    EmptyOn     \* 0 | 1: the environment operations at positions of this parity carry an empty payload (models only)
+    EmptyOn,    \* 0 | 1: the environment operations at positions of this parity carry an empty payload (models only)
+    MaxLen,     \* the largest payload a UDP socket carries: send() of a longer one fails with EMSGSIZE
+    BigOn,      \* 0 | 1 | 2: client datagrams at positions = BigOn (mod 3) are one octet too long (models only; 3 = never)
+    WithFault   \* models only: a forged ICMP error about a live flow (EHOSTUNREACH, ...) is part of the environment
 
 Addr == {Src[f] : f \in Flows} \cup {Dst[f] : f \in Flows}
 Key(s, d) == [s |-> s, d |-> d]
@@ -93,7 +96,7 @@ VARIABLES
     lastAct,    \* ghost: [AllKeys -> time of the last registered activity of the flow while it holds a socket]
     met,        \* [{"out","in"} -> Nat] sum of the update_metrics(direction, n) callbacks (C16 byte counters)
     stalled,    \* the client does not take datagrams: the downstream sink answers Dropped
-    everDown,   \* ghost: addresses that have been down at some time
+    everDown,   \* ghost: addresses that have been down, or about which an ICMP error was forged, at some time
     expiredOnce \* ghost: keys that have been expired by a tick
 
 vars == << pipeTab, fwdTab, gauge, alive, began, closing, inq, lpc, lcur, rxq, sockErr, icmpFly,
@@ -230,6 +233,7 @@ RegisterOutgoing ==
 \* If that peer's port is closed an ICMP error will come back to this socket.
 SinkWriteOk ==
     /\ lpc = "write" /\ rpc = "idle"
+    /\ lcur.len <= MaxLen
     /\ LET k == K(lcur.f) IN
        /\ k \in DOMAIN fwdTab /\ k \notin sockErr
        /\ toPeer' = Record(toPeer, [f |-> lcur.f, id |-> lcur.id, to |-> fwdTab[k].peer,
@@ -251,10 +255,22 @@ MetricOut ==
     /\ UNCHANGED << pipeTab, fwdTab, gauge, alive, began, closing, inq, rxq, sockErr, icmpFly, rpc, rcur, tpc, texp, tcur,
                     now, tickAt, down, seen, toPeer, toClient, got, done, ops, nextId, nextGen, lastAct, everDown, expiredOnce, stalled >>
 
-\* send() returned the socket's pending error (ECONNREFUSED): this datagram is dropped
+\* send() failed because the payload is longer than a UDP socket carries (EMSGSIZE; the size is
+\* checked before anything else, a pending error of the socket stays pending): this datagram is
+\* dropped and not counted, nothing else changes
+SinkWriteTooBig ==
+    /\ lpc = "write" /\ rpc = "idle"
+    /\ K(lcur.f) \in DOMAIN fwdTab /\ lcur.len > MaxLen
+    /\ done' = Record(done, [f |-> lcur.f, id |-> lcur.id, out |-> "toobig"])
+    /\ lpc' = "idle" /\ lcur' = Nil
+    /\ UNCHANGED << pipeTab, fwdTab, gauge, alive, began, closing, inq, rxq, sockErr, icmpFly, rpc, rcur, tpc, texp, tcur,
+                    now, tickAt, down, seen, toPeer, toClient, got, ops, nextId, nextGen, lastAct, everDown, expiredOnce, met, stalled >>
+
+\* send() returned the socket's pending error - of whatever KIND: ECONNREFUSED after an ICMP port
+\* unreachable, EHOSTUNREACH after "administratively prohibited", ... : this datagram is dropped
 \* (SendStatus::Dropped: no byte is counted), the error is consumed, the flow and the multiplexer go on
 SinkWriteErr ==
-    /\ lpc = "write" /\ rpc = "idle"
+    /\ lpc = "write" /\ rpc = "idle" /\ lcur.len <= MaxLen
     /\ K(lcur.f) \in DOMAIN fwdTab /\ K(lcur.f) \in sockErr
     /\ sockErr' = sockErr \ {K(lcur.f)}
     /\ done' = Record(done, [f |-> lcur.f, id |-> lcur.id, out |-> "senderr"])
@@ -437,7 +453,18 @@ ServerUp(a) ==
     /\ UNCHANGED << pipeTab, fwdTab, gauge, alive, began, closing, inq, lpc, lcur, rxq, sockErr, icmpFly, rpc, rcur,
                     tpc, texp, tcur, now, tickAt, seen, toPeer, toClient, got, done, nextId, nextGen, lastAct, everDown, expiredOnce, met, stalled >>
 
-\* the ICMP port-unreachable reaches the socket (any time after the send)
+\* somebody on the path (a firewall, a router) answers a datagram of flow f with an ICMP
+\* destination-unreachable of a kind that is a hard error for a connected UDP socket
+\* (administratively prohibited -> EHOSTUNREACH, ...): it is on its way to the flow's socket
+SocketFault(f) ==
+    /\ alive /\ ops < MaxOps
+    /\ K(f) \in DOMAIN fwdTab /\ K(f) \in seen
+    /\ icmpFly' = icmpFly \cup {K(f)} /\ everDown' = everDown \cup {Dst[f]}
+    /\ ops' = ops + 1
+    /\ UNCHANGED << pipeTab, fwdTab, gauge, alive, began, closing, inq, lpc, lcur, rxq, sockErr, rpc, rcur,
+                    tpc, texp, tcur, now, tickAt, down, seen, toPeer, toClient, got, done, nextId, nextGen, lastAct, expiredOnce, met, stalled >>
+
+\* the ICMP error reaches the socket (any time after the send / the fault)
 IcmpLands(k) ==
     /\ k \in icmpFly /\ k \in DOMAIN fwdTab
     /\ lpc \in {"idle", "write"} /\ rpc = "idle" /\ tpc = "idle"
@@ -466,7 +493,7 @@ ClientCloses ==
 --------------------------------------------------------------------------
 
 Left  == Lookup \/ InsertPipeEntry \/ SockOpenOk \/ SockOpenErr \/ NewConnOk \/ NewConnErr
-         \/ RegisterOutgoing \/ SinkWriteOk \/ SinkWriteErr \/ MetricOut
+         \/ RegisterOutgoing \/ SinkWriteOk \/ SinkWriteErr \/ SinkWriteTooBig \/ MetricOut
 Right == (\E k \in AllKeys : ReadReply(k) \/ SockErrRead(k)) \/ MetricIn \/ RegisterIncoming \/ DnsDone
          \/ (\E k \in AllKeys : DnsConnClosed(Rev(k))) \/ ReadClose
 Timer == Tick \/ (\E k \in AllKeys : Expire(k) \/ ExpireConnClosed(Rev(k))) \/ TickEnd
@@ -481,7 +508,10 @@ EnvQuiet == Quiet /\ began
 \* An empty datagram delivers 0 bytes but is a delivery like any other: it reaches the other side,
 \* refreshes the flow's activity and counts as a plain-DNS query / answer
 Lens(f) == IF ops % 2 = EmptyOn THEN {0} ELSE {f}
-EnvDgram == EnvQuiet /\ \E f \in Flows : \E n \in Lens(f) : ClientDgram(f, nextId, n)
+\* a client datagram may also be one octet longer than a UDP socket carries
+LensOut(f) == IF ops % 3 = BigOn THEN {MaxLen + 1} ELSE Lens(f)
+EnvFault == WithFault /\ EnvQuiet /\ inq = << >> /\ \E f \in Flows : SocketFault(f)
+EnvDgram == EnvQuiet /\ \E f \in Flows : \E n \in LensOut(f) : ClientDgram(f, nextId, n)
 EnvReply == EnvQuiet /\ \E f \in Flows : \E n \in Lens(f) : PeerReplies(f, nextId, n)
 EnvStall == EnvQuiet /\ inq = << >> /\ ClientStalls
 EnvResume == EnvQuiet /\ inq = << >> /\ ClientResumes
@@ -490,7 +520,7 @@ EnvUp    == EnvQuiet /\ \E a \in Addr : ServerUp(a)
 EnvIcmp  == \E k \in AllKeys : IcmpLands(k)
 EnvClose == EnvQuiet /\ inq = << >> /\ ClientCloses
 EnvAdv   == Adv(1)
-Env == EnvDgram \/ EnvReply \/ EnvDown \/ EnvUp \/ EnvIcmp \/ EnvClose \/ EnvAdv \/ EnvStall \/ EnvResume
+Env == EnvFault \/ EnvDgram \/ EnvReply \/ EnvDown \/ EnvUp \/ EnvIcmp \/ EnvClose \/ EnvAdv \/ EnvStall \/ EnvResume
 
 Next == Impl \/ Env
 Spec == Init /\ [][Next]_vars
@@ -551,7 +581,7 @@ FlowErrorsAreLocal ==
     /\ \A i \in 1..Len(done) :
          /\ done[i].out = "connerr" => done[i].f \in Unconn
          /\ done[i].out = "senderr" => Dst[done[i].f] \in everDown
-         /\ (done[i].f \notin Unconn /\ Dst[done[i].f] \notin everDown) => done[i].out = "sent"
+         /\ (done[i].f \notin Unconn /\ Dst[done[i].f] \notin everDown) => done[i].out \in {"sent", "toobig"}
 
 \* nothing is delivered twice or to the wrong server (recorded executions)
 PeersGetTheirOwn ==
